@@ -275,7 +275,7 @@ pub fn gen_wire(r: &mut Rng, allow_tiny_cap: bool) -> WirePolicy {
             lat_min: 0,
             lat_max: r.range(0, 20),
             cap: 1 << 22,
-            max_write: 0,
+            max_write: 0, opaque: false
         },
         2 => WirePolicy {
             seed,
@@ -283,7 +283,7 @@ pub fn gen_wire(r: &mut Rng, allow_tiny_cap: bool) -> WirePolicy {
             lat_min: 0,
             lat_max: r.range(0, 3),
             cap: 1 << 22,
-            max_write: 0,
+            max_write: 0, opaque: false
         },
         3 => WirePolicy {
             seed,
@@ -291,7 +291,7 @@ pub fn gen_wire(r: &mut Rng, allow_tiny_cap: bool) -> WirePolicy {
             lat_min: 0,
             lat_max: r.range(0, 30),
             cap: 1 << 22,
-            max_write: 0,
+            max_write: 0, opaque: false
         },
         4 => WirePolicy {
             seed,
@@ -300,6 +300,7 @@ pub fn gen_wire(r: &mut Rng, allow_tiny_cap: bool) -> WirePolicy {
             lat_max: r.range(5, 60),
             cap: if allow_tiny_cap { r.usize_in(1, 4096) } else { r.usize_in(512, 65536) },
             max_write: if r.chance(1, 3) { r.usize_in(1, 512) } else { 0 },
+            opaque: false,
         },
         _ => WirePolicy {
             seed,
@@ -307,7 +308,7 @@ pub fn gen_wire(r: &mut Rng, allow_tiny_cap: bool) -> WirePolicy {
             lat_min: 0,
             lat_max: r.range(0, 200),
             cap: r.usize_in(64, 1 << 20),
-            max_write: 0,
+            max_write: 0, opaque: false
         },
     }
 }
